@@ -20,23 +20,89 @@ mod c11 {
         ShardAwarePortRange::new(lo..=hi).unwrap()
     }
 
-    /// C11.shard_of.contract — all tokens, all shard counts 1..=65535, msb_ignore enumerated
-    /// concretely 0..=63 (each value of the shift is a separate, fully symbolic (token, n) query;
-    /// with a concrete shift both multipliers get identical operands and the query is easy).
-    #[kani::proof_for_contract(Sharder::shard_of)]
-    #[kani::unwind(65)]
-    fn c11_shard_of_contract() {
-        let mut msb: u8 = 0;
-        while msb < 64 {
-            let n: u16 = kani::any();
-            kani::assume(n != 0);
-            let s = Sharder::new(ShardCount::new(n).unwrap(), msb);
-            let t: i64 = kani::any();
-            let r = s.shard_of(Token { value: t });
-            kani::cover!(msb == 63 && r + 1 == n as u32);
-            msb += 1;
-        }
+    /// C11.shard_of.contract.msbNN — the in-place contract of `Sharder::shard_of` (result == spec_shard and
+    /// result < nr_shards) for ALL tokens and ALL shard counts 1..=65535, one harness per value of
+    /// msb_ignore in 0..=63 (with a concrete shift both 128-bit products have syntactically equal operands,
+    /// which z3 decides in < 1 s; a symbolic shift did not finish in 10 min on any installed solver).
+    macro_rules! shard_of_msb {
+        ($($name:ident = $m:expr),* $(,)?) => {$(
+            #[kani::proof_for_contract(Sharder::shard_of)]
+            #[kani::solver(z3)]
+            fn $name() {
+                let n: u16 = kani::any();
+                kani::assume(n != 0);
+                let s = Sharder::new(ShardCount::new(n).unwrap(), $m);
+                let t: i64 = kani::any();
+                let _ = s.shard_of(Token { value: t });
+            }
+        )*};
     }
+    shard_of_msb!(
+        c11_shard_of_msb_00 = 0,
+        c11_shard_of_msb_01 = 1,
+        c11_shard_of_msb_02 = 2,
+        c11_shard_of_msb_03 = 3,
+        c11_shard_of_msb_04 = 4,
+        c11_shard_of_msb_05 = 5,
+        c11_shard_of_msb_06 = 6,
+        c11_shard_of_msb_07 = 7,
+        c11_shard_of_msb_08 = 8,
+        c11_shard_of_msb_09 = 9,
+        c11_shard_of_msb_10 = 10,
+        c11_shard_of_msb_11 = 11,
+        c11_shard_of_msb_12 = 12,
+        c11_shard_of_msb_13 = 13,
+        c11_shard_of_msb_14 = 14,
+        c11_shard_of_msb_15 = 15,
+        c11_shard_of_msb_16 = 16,
+        c11_shard_of_msb_17 = 17,
+        c11_shard_of_msb_18 = 18,
+        c11_shard_of_msb_19 = 19,
+        c11_shard_of_msb_20 = 20,
+        c11_shard_of_msb_21 = 21,
+        c11_shard_of_msb_22 = 22,
+        c11_shard_of_msb_23 = 23,
+        c11_shard_of_msb_24 = 24,
+        c11_shard_of_msb_25 = 25,
+        c11_shard_of_msb_26 = 26,
+        c11_shard_of_msb_27 = 27,
+        c11_shard_of_msb_28 = 28,
+        c11_shard_of_msb_29 = 29,
+        c11_shard_of_msb_30 = 30,
+        c11_shard_of_msb_31 = 31,
+        c11_shard_of_msb_32 = 32,
+        c11_shard_of_msb_33 = 33,
+        c11_shard_of_msb_34 = 34,
+        c11_shard_of_msb_35 = 35,
+        c11_shard_of_msb_36 = 36,
+        c11_shard_of_msb_37 = 37,
+        c11_shard_of_msb_38 = 38,
+        c11_shard_of_msb_39 = 39,
+        c11_shard_of_msb_40 = 40,
+        c11_shard_of_msb_41 = 41,
+        c11_shard_of_msb_42 = 42,
+        c11_shard_of_msb_43 = 43,
+        c11_shard_of_msb_44 = 44,
+        c11_shard_of_msb_45 = 45,
+        c11_shard_of_msb_46 = 46,
+        c11_shard_of_msb_47 = 47,
+        c11_shard_of_msb_48 = 48,
+        c11_shard_of_msb_49 = 49,
+        c11_shard_of_msb_50 = 50,
+        c11_shard_of_msb_51 = 51,
+        c11_shard_of_msb_52 = 52,
+        c11_shard_of_msb_53 = 53,
+        c11_shard_of_msb_54 = 54,
+        c11_shard_of_msb_55 = 55,
+        c11_shard_of_msb_56 = 56,
+        c11_shard_of_msb_57 = 57,
+        c11_shard_of_msb_58 = 58,
+        c11_shard_of_msb_59 = 59,
+        c11_shard_of_msb_60 = 60,
+        c11_shard_of_msb_61 = 61,
+        c11_shard_of_msb_62 = 62,
+        c11_shard_of_msb_63 = 63,
+    );
 
     /// C11.shard_of.spec_selfcheck — the spec function itself on ScyllaDB's documented examples
     /// (guards against a vacuous or wrong oracle): shard(t) for n=1 is 0; the biased extremes.
@@ -50,15 +116,6 @@ mod c11 {
         // msb_ignore = 1 drops the top bit of the biased token: tokens 2^62 apart by 2^63 collide
         assert!(spec_shard(0, 4, 1) == spec_shard(i64::MIN, 4, 1));
         assert!(spec_shard(1i64 << 62, 4, 1) == 2);
-    }
-
-    /// C11.shard_of_source_port.contract
-    #[kani::proof_for_contract(Sharder::shard_of_source_port)]
-    fn c11_shard_of_source_port_contract() {
-        let s = any_sharder();
-        let p: u16 = kani::any();
-        let r = s.shard_of_source_port(p);
-        kani::cover!(r != 0);
     }
 
     /// C11.shard_info_new — Ok <=> shard < nr_shards, fields preserved.
@@ -82,17 +139,6 @@ mod c11 {
         }
         kani::cover!(shard < n);
         kani::cover!(shard >= n);
-    }
-
-    /// C11.lowest_port.contract — Some(p) is the minimum of P, None iff P is empty.
-    #[kani::proof_for_contract(Sharder::calculate_lowest_port_for_shard_in_range)]
-    fn c11_lowest_port_contract() {
-        let s = any_sharder();
-        let shard: u16 = kani::any();
-        let r = any_range();
-        let res = s.calculate_lowest_port_for_shard_in_range(shard, &r);
-        kani::cover!(res.is_none());
-        kani::cover!(res.is_some());
     }
 
     /// canary: a deliberately false claim must be refuted (pipeline sanity).
